@@ -106,6 +106,10 @@ def run_unit(u):
                         f = p.parse(text)
                         d = ForestDump(num, f.result)
                 except parglare.SyntaxError:
+                    # a rejected sentence has no forest at all: every derivation is missing
+                    b.add("input", enc_input(num, p, text))
+                    q = b.add("sentence", CHART_FUEL)
+                    checks.append((case, None, q, None))
                     continue
                 except BudgetExceeded:
                     continue        # termination is C01's
@@ -122,6 +126,15 @@ def run_unit(u):
             out = b.run()
             st["traces"] += len(checks)
             for case, d, q, skip in checks:
+                if d is None:
+                    if out[q] == "sentence 1":
+                        v = {"kind": "sentence-rejected-no-forest", "case": case}
+                        if spec.exhaustive:
+                            v["fingerprint"] = h16(["F-GLR-1", gtxt, tname, strip_layout(case["input"])])
+                        elif "nullable" in feats:
+                            v["attribution"] = "glr-nullable-loss"
+                        res["violations"].append(v)
+                    continue
                 if not out[q].startswith("sppf") or out[q] == "sppf fuel":
                     continue
                 flat = [int(x) for x in out[q].split()[1:]]
